@@ -81,6 +81,12 @@ fn build(v: &Value) -> TestCaseConfig {
         "dur_path_edge_blank" => Some(TestCaseWait { timeout: Duration::from_secs(2), path: Some(PathBuf::from(" ready ")) }),
         "dur_path_blank" => Some(TestCaseWait { timeout: Duration::from_secs(2), path: Some(PathBuf::from(" ")) }),
         "dur_zero" => Some(TestCaseWait { timeout: Duration::from_secs(0), path: Some(PathBuf::from("ready")) }),
+        "dur_path_tilde" => Some(TestCaseWait { timeout: Duration::from_secs(2), path: Some(PathBuf::from("~")) }),
+        "dur_path_at" => Some(TestCaseWait { timeout: Duration::from_secs(2), path: Some(PathBuf::from("@ready")) }),
+        "dur_path_colon" => Some(TestCaseWait { timeout: Duration::from_secs(2), path: Some(PathBuf::from("ready:")) }),
+        "dur_path_null" => Some(TestCaseWait { timeout: Duration::from_secs(2), path: Some(PathBuf::from("null")) }),
+        "dur_path_true" => Some(TestCaseWait { timeout: Duration::from_secs(2), path: Some(PathBuf::from("True")) }),
+        "dur_path_num" => Some(TestCaseWait { timeout: Duration::from_secs(2), path: Some(PathBuf::from("123")) }),
         "dur_path_special" => Some(TestCaseWait { timeout: Duration::from_secs(2), path: Some(PathBuf::from("a\", b}#c")) }),
         _ => None,
     };
